@@ -27,6 +27,7 @@ import (
 	"github.com/ory/keto/internal/relationtuple"
 	"github.com/ory/keto/internal/schema"
 	"github.com/ory/keto/internal/x"
+	"github.com/ory/keto/ketoctx"
 )
 
 var (
@@ -45,6 +46,10 @@ type faultDeps struct {
 	failAt     int64
 	persistent bool
 	kind       int // which error the failing call returns (faultErrs)
+	// when set, the storage the engine uses instead of the registry's (C06: a persister
+	// whose network is selected per request through the contextualizer)
+	baseMgr  relationtuple.Manager
+	baseTrav relationtuple.Traverser
 }
 
 // faultErrs are the injected storage failures: a generic connection error, a
@@ -112,10 +117,16 @@ func (t *faultTraverser) TraverseSubjectSetRewrite(ctx context.Context, tuple *r
 }
 
 func (d *faultDeps) RelationTupleManager() relationtuple.Manager {
+	if d.baseMgr != nil {
+		return &faultManager{Manager: d.baseMgr, d: d}
+	}
 	return &faultManager{Manager: d.RegistryDefault.RelationTupleManager(), d: d}
 }
 
 func (d *faultDeps) Traverser() relationtuple.Traverser {
+	if d.baseTrav != nil {
+		return &faultTraverser{Traverser: d.baseTrav, d: d}
+	}
 	return &faultTraverser{Traverser: d.RegistryDefault.Traverser(), d: d}
 }
 
@@ -130,37 +141,71 @@ type engEnv struct {
 	nfile  int
 	// last limits set (Config.Set reloads the whole configuration, ~10 ms)
 	lastDepth, lastWidth int
-	other                *ksql.Persister // a second network on the same database (C06)
+	other                *ksql.Persister // one persister serving two networks selected by the context (C06)
+	ctxB                 context.Context
 }
 
-// otherNetwork returns a persister for a second network id on the same database.
-func (e *engEnv) otherNetwork() (*ksql.Persister, error) {
-	if e.other != nil {
-		return e.other, nil
+type ctxNetKey struct{}
+
+// ctxNet selects the network of a request from its context (what a multi-tenant
+// deployment does through ketoctx.Contextualizer).
+type ctxNet struct{ ketoctx.DefaultContextualizer }
+
+func (c *ctxNet) Network(ctx context.Context, n uuid.UUID) uuid.UUID {
+	if v, ok := ctx.Value(ctxNetKey{}).(uuid.UUID); ok {
+		return v
 	}
-	n := networkx.NewNetwork()
+	return n
+}
+
+type ctxDeps struct {
+	*driver.RegistryDefault
+	c ketoctx.Contextualizer
+}
+
+func (d *ctxDeps) Contextualizer() ketoctx.Contextualizer { return d.c }
+
+// useCtxNetworks switches the environment to ONE persister serving two networks A and
+// B chosen per request by the context; prepare/storedOrder/runCheck then work in A.
+func (e *engEnv) useCtxNetworks() error {
 	conn, err := e.reg.PopConnection(e.ctx)
-	if err != nil {
-		return nil, err
-	}
-	if err := conn.Create(n); err != nil {
-		return nil, err
-	}
-	p, err := ksql.NewPersister(e.ctx, e.reg, n.ID)
-	if err != nil {
-		return nil, err
-	}
-	e.other = p
-	return p, nil
-}
-
-// fillOtherNetwork replaces the content of the second network by the given tuples.
-func (e *engEnv) fillOtherNetwork(ts []Tup) error {
-	p, err := e.otherNetwork()
 	if err != nil {
 		return err
 	}
-	if err := p.DeleteAllRelationTuples(e.ctx, &relationtuple.RelationQuery{}); err != nil {
+	a, b := networkx.NewNetwork(), networkx.NewNetwork()
+	if err := conn.Create(a); err != nil {
+		return err
+	}
+	if err := conn.Create(b); err != nil {
+		return err
+	}
+	p, err := ksql.NewPersister(e.ctx, &ctxDeps{RegistryDefault: e.reg, c: &ctxNet{}}, uuid.Must(uuid.NewV4()))
+	if err != nil {
+		return err
+	}
+	e.other = p
+	e.ctxB = context.WithValue(e.ctx, ctxNetKey{}, b.ID)
+	e.ctx = context.WithValue(e.ctx, ctxNetKey{}, a.ID)
+	return nil
+}
+
+func (e *engEnv) manager() relationtuple.Manager {
+	if e.other != nil {
+		return e.other
+	}
+	return e.reg.RelationTupleManager()
+}
+
+func (e *engEnv) persister() persistence.Persister {
+	if e.other != nil {
+		return e.other
+	}
+	return e.reg.Persister()
+}
+
+// fillOtherNetwork replaces the content of network B by the given tuples.
+func (e *engEnv) fillOtherNetwork(ts []Tup) error {
+	if err := e.other.DeleteAllRelationTuples(e.ctxB, &relationtuple.RelationQuery{}); err != nil {
 		return err
 	}
 	if len(ts) == 0 {
@@ -170,7 +215,7 @@ func (e *engEnv) fillOtherNetwork(ts []Tup) error {
 	for i, t := range ts {
 		its[i] = t.internal()
 	}
-	return p.WriteRelationTuples(e.ctx, its...)
+	return e.other.WriteRelationTuples(e.ctxB, its...)
 }
 
 func newEngEnv(t testing.TB) *engEnv {
@@ -257,7 +302,7 @@ func (e *engEnv) prepare(c *EngCase, o *Out) error {
 		return err
 	}
 	// store
-	m := e.reg.RelationTupleManager()
+	m := e.manager()
 	if err := m.DeleteAllRelationTuples(e.ctx, &relationtuple.RelationQuery{}); err != nil {
 		return err
 	}
@@ -291,7 +336,7 @@ func (e *engEnv) storedOrder(orig []Tup) ([]Tup, error) {
 		}
 	}
 	var rows []*ksql.RelationTuple
-	p := e.reg.Persister()
+	p := e.persister()
 	if err := p.Connection(e.ctx).RawQuery(
 		"SELECT shard_id, nid, namespace, object, relation, subject_id, subject_set_namespace, subject_set_object, subject_set_relation, commit_time FROM keto_relation_tuples WHERE nid = ? ORDER BY shard_id",
 		p.NetworkID(e.ctx)).All(&rows); err != nil {
@@ -372,6 +417,9 @@ func (e *engEnv) runCheck(c *EngCase, det bool) (res string, calls int64) {
 	defer func() { checkgroup.DefaultFactory = old }()
 	var n int64
 	deps := &faultDeps{RegistryDefault: e.reg, calls: &n, failAt: int64(c.FaultAt), persistent: c.FaultPersis, kind: c.FaultKind}
+	if e.other != nil {
+		deps.baseMgr, deps.baseTrav = e.other, ksql.NewTraverser(e.other)
+	}
 	eng := check.NewEngine(deps)
 	defer func() {
 		if r := recover(); r != nil {
